@@ -6,14 +6,44 @@ BASELINE = "cd /repo && cargo nextest run --workspace --no-fail-fast --tool-conf
 
 CLAIMS = {
     "C01": dict(cat="proof", tech="contract harnesses (Kani/CBMC) on every generated kernel struct + Verus on transcribed scalar kernels",
-                text="Call-boundary contracts (broadcast shape, out[r,c] == lhs ⊙ rhs under the representability precondition, operands unchanged, idempotent) on the real generated `«Op»«Form»<T>::solve` of every arithmetic/comparison/logic operator: scalar forms proved over the full value domain (Kani loop-free; Verus for wide mul/div/mod), matrix forms complete in element values and bounded in shape (2x3, thorough also 3x2). Kernel level only: dispatch-arm wiring, term() and shape rejection are not decided.",
-                note="Trusted: Kani MIR->goto translation, CBMC, Verus/Z3, nalgebra executed as is. Assumed: fixed matrix shapes; R64/C64 kernels not covered; quick tier runs every form for one 8-bit kind plus the scalar form of every kind.", ref="4 C01"),
+                text="Call-boundary contracts (broadcast shape, out[r,c] == lhs ⊙ rhs under the representability precondition, operands unchanged) on the real generated `«Op»«Form»<T>::solve` of every arithmetic/comparison/logic operator: scalar forms proved over the full value domain (Kani loop-free; Verus for wide add/sub/mul/div/mod), matrix forms complete in element values and bounded in shape (2x3, thorough also 3x2). Kernel level only: dispatch-arm wiring, term() and shape rejection are not decided.",
+                note="Trusted: Kani MIR->goto translation, CBMC, Verus/Z3, nalgebra executed as is. Assumed: fixed matrix shapes; R64/C64 kernels not covered; quick tier runs every form for one 8-bit kind plus the scalar form of every kind; wide mul/div/mod and float div/mod/pow are not tractable for CBMC (Verus where it has a spec, else undecided).", ref="4 C01"),
+    "C02": dict(cat="proof", tech="Verus on fragments of term(): operator dispatch table (verbatim arms) and left-fold loop",
+                text="Partial: (a) every operator token of the formula grammar is dispatched by term() to the function it denotes with operands in (lhs, rhs) order — the `match op` arms are verified verbatim against the operator table; (b) one grammar level evaluates as a left fold in source order. Precedence between levels and parenthesis override are parser code and are NOT decided.",
+                note="Assumed: nom many0(pair(..)) collects in source order; compilers are stand-ins returning tagged results; the fold is proved on an index-loop transcription guarded by an anchor check of the loop body.", ref="4 C02"),
+    "C03": dict(cat="model_checking", tech="Kani contract harnesses on the generated Access* kernel structs against a 1-based column-major reference model",
+                text="Every access kernel struct (scalar, index vector, mask, `:` in one and two positions) is run on real nalgebra storage with unconstrained element values and unconstrained index contents at fixed shapes: in-range => exactly the model's elements in the documented shape, source unchanged, idempotent; out-of-range / wrong mask length => must not produce a value. Bounded in shape; dispatch (subscript(), arms) not executed.",
+                note="Trusted: Kani/CBMC, the reference model in contracts/common/ixmodel.rs; `out` allocated as the dispatch arm allocates it (read off the arm text); kernel panics count as rejection (catch_unwind not verified).", ref="4 C03"),
+    "C04": dict(cat="model_checking", tech="Kani contract harnesses with frame conditions on the generated Assign*/Set* kernel structs",
+                text="Scalar-source assignment through every index form and vector-source assignment through distinct linear indices: exactly the addressed elements are set, every other element and the shape unchanged (frame), out-of-range target / wrong mask length rejected. Bounded in shape. Op-assignment, 2-D vector sources, failure atomicity and kind mismatch are not decided.",
+                note="Trusted: Kani/CBMC, ixmodel.rs. Kernel level only; a panic counts as rejection; state after a panic cannot be observed under Kani.", ref="4 C04"),
+    "C05": dict(cat="proof", tech="Verus on the real SymbolTable methods and on the name-guard fragments of variable_define / variable_assign; Kani on detach_variable_value",
+                text="SymbolTable::{get,get_mutable,contains,insert} proved against a map view with the invariant 'mutable binding => same cell as the binding'; the guards of variable_define (existing name => error) and variable_assign (undefined / immutable => the right error, before anything is written) proved on the verbatim statements; storage separation of `y := x` checked on the real detach_variable_value (known finding). The history clause is a lemma over these contracts.",
+                note="Assumed: Value/Ref stand-ins (a cell is an identity); statements after the guards (expression evaluation, kernels) are outside; 'never aborts the host' (catch_unwind) not decided.", ref="4 C05"),
+    "C06": dict(cat="proof", tech="Verus on CompileCtx + compile_*op! emitters; Kani on constant codecs; syntactic emitter/factory order pass",
+                text="Partial, modular: the real CompileCtx register allocator and emit_* methods and the five emitter macros (instantiated mechanically) are proved to emit ConstLoad per operand then the op with registers in (out, arg1, arg2, ..) order; ConstElem write_le/from_le round trips proved for every scalar kind; symbol-section count round trip proved for every n; an anchor pass checks that every struct template passes its fields to the emitter in the order its factory reads them. Whole-program equivalence is only the (unchecked) composition.",
+                note="Assumed: Cell::compile_const touches only constant tables; hash_str uninterpreted; run_program does not re-solve. Not decided: name registration, compile_varop!, matrix/set/table constants, no-panic.", ref="4 C06"),
     "C07": dict(cat="proof", tech="Kani contract harnesses on codecs / CRC gate / loader + Verus on pure helpers",
-                text="Per-item codec round trips (header, 8 instruction forms, const entries, opcode/type tags) proved loop-free over all field values on the real encoders/decoders; CRC gate `Ok <=> crc32(payload)==trailer` and `load_program_from_bytes` gated by it; hostile-bytes no-panic bounded in length; pure helpers proved by Verus.",
-                note="Trusted: crc32fast == reference CRC-32 (stubbed under Kani), fmt stub, byteorder/Cursor executed. Truncation clause not decidable (not a CRC theorem); burst theorem machine-checked for 6-byte payloads only.", ref="4 C07"),
+                text="Per-item codec round trips (header, instruction forms, const entries, opcode/type tags) proved loop-free over all field values on the real encoders/decoders incl. byte_len and re-encoding; CRC gate `Ok <=> crc32(payload)==trailer` at fixed lengths; truncated-instruction rejection; pure helpers (check_alignment, align_up, decode_version_from_u16) proved by Verus.",
+                note="Trusted: crc32fast == reference CRC-32 (stubbed under Kani), fmt and caller-location stubs, byteorder/Cursor executed. Truncation clause not decidable (not a CRC theorem); burst theorem machine-checked for 6-byte payloads only; loader no-panic on hostile bytes only in the thorough tier and mostly undecided (CBMC cost).", ref="4 C07"),
+    "C11": dict(cat="model_checking", tech="Kani contract harnesses on CopyMat copy loops and the dynamic horzcat/vertcat kernels",
+                text="copy_into/_v/_r/_row_major place the block at the offset and touch nothing else; HorizontalConcatenate{TwoArgs,ThreeArgs,NArgs,RDN} and VerticalConcatenate{TwoArgs,ThreeArgs,NArgs}::solve produce the block matrix in written order, operands unchanged. Bounded in block shapes; shape/kind rejection (evaluator + compile routing) not decided.",
+                note="Trusted: Kani/CBMC, nalgebra executed. Only the kernels built in the default (dynamic) configuration.", ref="4 C11"),
+    "C12": dict(cat="proof", tech="Kani loop-free contract harnesses over the full domain of every ordered kind pair",
+                text="ConvertScalarToScalarBasic<F,T>::solve for all 144 ordered pairs of the primitive numeric kinds: representable => exactly that value (widen-then-narrow identity), float->int truncates toward zero and clamps, NaN -> 0; oracles avoid the cast under test. Matrix conversion / reshape / unsupported pairs not yet under contract.",
+                note="Trusted: Kani/CBMC bit-precise casts; std TryFrom as integer oracle.", ref="4 C12"),
+    "C13": dict(cat="model_checking", tech="Kani on the based-literal evaluators with symbolic digit tokens",
+                text="Partial: binary/octal/decimal/hex literal evaluators yield exactly the number the digits denote for every token of 1..3 digits. Float/scientific/rational/complex spellings and the grammar are not decided.",
+                note="Assumed: std from_str_radix executed; str::parse::<f64> nearest-value is std's contract; powf not modelled by either verifier.", ref="4 C13"),
+    "C14": dict(cat="proof", tech="Kani on the Hash/Eq law of Value with a recording hasher",
+                text="Partial: for every scalar kind, a == b implies identical bytes are fed to the hasher (the law that makes IndexSet<Value> keep distinct elements), full value domain; signed-zero floats pinned as a known finding. The set algebra itself is indexmap's assumed contract.",
+                note="Hash containers cannot run under CBMC (P12); set operations, metadata refresh and comprehensions not decided.", ref="4 C14"),
     "C15": dict(cat="proof", tech="Kani on count fragments cut verbatim from the dispatch-arm macros + fill kernels on real nalgebra",
                 text="Element-count computation of the four range dispatch arms (fragment F, verbatim text, every kind) against the exact count over mathematical integers, loop-free over the full domain; fill kernels Range*Scalar::solve against out[i]==a+i*s (bounded length 4). Known defects pinned as known findings.",
                 note="Trusted: Kani/CBMC; the arm's allocation and storage-type match are read off the macro text. 64-bit stepped ranges bounded to |x|<2^52; 128-bit stepped ranges and float stepped ranges not covered.", ref="4 C15"),
+    "C20": dict(cat="proof", tech="Verus on code_fence_delimiter and on the active-set protocol fragment of expand_mechdown_includes_recursive",
+                text="Partial: the fence-line classifier is proved for lines of any length; the cycle-detection protocol (path in active set => error; set restored on success so diamonds are allowed; the recursion runs with the path in the set) is proved on the statements that touch the set, with the file-reading middle replaced by its own contract. Textual-substitution equality, path resolution and termination are not decided.",
+                note="Assumed: modular recursion (the middle satisfies the function's contract), canonicalize identifies files.", ref="4 C20"),
 }
 NA = {
     "C08": "formatter∘parser round trip: postcondition mentions the nom/closure parser, which neither Verus (cannot take the code) nor Kani (8 min for one concrete 5-token input, P10) can reach; no contract within reach decides it",
@@ -23,8 +53,7 @@ NA = {
     "C17": "state-machine transition runs: AST-walking evaluator over HashMap state; same reason as C16",
     "C18": "joins are one 180-line function over HashMap/HashSet/IndexMap with iterator closures: Verus cannot take it, hash containers with symbolic keys do not terminate under CBMC (P12)",
 }
-PENDING = {k: "check not yet built in this session (planned, DESIGN.md §4)" for k in
-           ["C02", "C03", "C04", "C05", "C06", "C11", "C12", "C13", "C14", "C19", "C20"]}
+PENDING = {"C19": "check not yet built in this session (planned, DESIGN.md §4 C19)"}
 
 
 def main():
